@@ -48,6 +48,9 @@ def handle (inp out : List String) : String :=
       -- output: <number of data lines> <all identities hold 0|1>
       verdict [toString n, "1"] out none
     | _, _, _ => "BADLINE c20 ber"
+  | ["berx", _name] =>
+    -- two requested Eb/N0 values (numEbn0s 200 300 100 = 2); output: <number of data lines> <all identities and detail lines hold 0|1>
+    verdict [toString (numEbn0s 200 300 100), "1"] out none
   | _ => "BADLINE c20 kind"
 
 end LdpcV.Driver.C20
